@@ -40,6 +40,14 @@ use crate::{
 use nar_dev_utils::{PrefixMatch, StartsWithStr, SuffixMatch};
 use std::{error::Error, fmt::Display};
 
+/// 检查「字符数组切片」是否以指定字符串**完整**开头
+/// * ⚠️[`StartsWithStr::starts_with_str`]在「切片比字符串短」时，只要切片是字符串的前缀就会返回`true`
+///   * 📄如输入末尾被截断的右括弧`\\rig`之于`\\right\\}`
+///   * 🚩故需先检验长度，否则之后按「字符串长度」推进的索引会越过环境边界
+fn starts_with_full(env: &[char], needle: &str) -> bool {
+    env.len() >= needle.chars().count() && env.starts_with_str(needle)
+}
+
 /// 词法解析 辅助结构对象
 /// * 🚩放在一个独立的模块内，以便折叠
 /// * 🚩【2024-06-13 19:42:07】现在直接对外展开，内部模块结构不再直接呈现
@@ -774,12 +782,12 @@ impl ParseState<'_> {
         term_begin += term_len;
         loop {
             // 右括弧⇒跳过，结束
-            if env[term_begin..].starts_with_str(right) {
+            if starts_with_full(&env[term_begin..], right) {
                 right_border = term_begin + right.chars().count();
                 break;
             }
             // 分隔符⇒跳过
-            if env[term_begin..].starts_with_str(&self.format.compound.separator) {
+            if starts_with_full(&env[term_begin..], &self.format.compound.separator) {
                 term_begin += self.format.compound.separator.chars().count();
             }
             // 解析一个词项
@@ -826,12 +834,12 @@ impl ParseState<'_> {
         let right_border;
         loop {
             // 右括弧⇒跳过，结束
-            if env[term_begin..].starts_with_str(right) {
+            if starts_with_full(&env[term_begin..], right) {
                 right_border = term_begin + right.chars().count();
                 break;
             }
             // 分隔符⇒跳过
-            if env[term_begin..].starts_with_str(&self.format.compound.separator) {
+            if starts_with_full(&env[term_begin..], &self.format.compound.separator) {
                 term_begin += self.format.compound.separator.chars().count();
             }
             // 解析一个词项
@@ -893,7 +901,7 @@ impl ParseState<'_> {
 
         // 跳过右括弧 //
         let right_bracket_start = predicate_start + relative_len;
-        let right_border = match env[right_bracket_start..].starts_with_str(right) {
+        let right_border = match starts_with_full(&env[right_bracket_start..], right) {
             true => right_bracket_start + right.chars().count(),
             false => return self.err(env, "未匹配到右括弧"),
         };
